@@ -12,8 +12,8 @@ import (
 	"github.com/google/martian/v3/zzverif/vf"
 )
 
-var encodings = []string{"", "gzip", "deflate", "br"}
-var ctypes = []string{"", "text/plain", "image/png"}
+var zzencodings = []string{"", "gzip", "deflate", "br"}
+var zzctypes = []string{"", "text/plain", "image/png"}
 
 // VerifC15Snapshot: taking a snapshot leaves the message as it was, and the
 // snapshot equals a reference serialisation, partitioned by its three readers.
@@ -21,8 +21,8 @@ func VerifC15Snapshot() {
 	isReq := vf.Choice("message", 2) == 0
 	framing := vf.Choice("framing", 3)
 	plain := vf.Bytes("body", vf.Choice("body-len", vf.Param("bodylens")))
-	enc := encodings[vf.Choice("content-encoding", len(encodings))]
-	ct := ctypes[vf.Choice("content-type", len(ctypes))]
+	enc := zzencodings[vf.Choice("content-encoding", len(zzencodings))]
+	ct := zzctypes[vf.Choice("content-type", len(zzctypes))]
 	trailers := framing == msg.FrameChunked && vf.Choice("trailers", 2) == 1
 	wire := plain
 	if enc == "gzip" || enc == "deflate" {
